@@ -105,7 +105,7 @@ Tensor Device::identity(std::uint32_t size) {
 }
 
 Tensor Device::random_bernoulli(const Shape &shape, float p) {
-  if (p < 0 || p > 1) {
+  if (!(p >= 0 && p <= 1)) {
     PRIMITIV_THROW_ERROR("Invalid Bernoulli probability: " << p);
   }
   Tensor y = new_raw_tensor(shape);
@@ -115,7 +115,7 @@ Tensor Device::random_bernoulli(const Shape &shape, float p) {
 
 Tensor Device::random_uniform(
     const Shape &shape, float lower, float upper) {
-  if (upper < lower) {
+  if (!(lower <= upper)) {
     PRIMITIV_THROW_ERROR(
         "Invalid parameter of the uniform distribution. lower: " << lower
         << ", upper: " << upper);
@@ -126,7 +126,7 @@ Tensor Device::random_uniform(
 }
 
 Tensor Device::random_normal(const Shape &shape, float mean, float sd) {
-  if (sd <= 0) {
+  if (!(sd > 0)) {
     PRIMITIV_THROW_ERROR(
         "Invalid parameter of the normal distribution. mean: " << mean
         << ", SD: " << sd);
@@ -137,7 +137,7 @@ Tensor Device::random_normal(const Shape &shape, float mean, float sd) {
 }
 
 Tensor Device::random_log_normal(const Shape &shape, float mean, float sd) {
-  if (sd <= 0) {
+  if (!(sd > 0)) {
     PRIMITIV_THROW_ERROR(
         "Invalid parameter of the log-normal distribution. mean: " << mean
         << ", SD: " << sd);
